@@ -152,7 +152,33 @@ def rec_n(rec):
     return rec.get("nsamples") or rec["ns"]
 
 
+class ConversionTimeout(Exception):
+    pass
+
+
+def _alarm(signum, frame):
+    raise ConversionTimeout("conversion did not finish within %d s" % CONVERSION_TIMEOUT)
+
+
+CONVERSION_TIMEOUT = int(__import__("os").environ.get("C12_CONV_TIMEOUT", "90"))
+
+
 def impl_convert(ap, W, extra, rec, state):
+    """impl_convert_inner under a wall-clock limit (an endless window loop must not hang the check)."""
+    import signal
+    old = signal.signal(signal.SIGALRM, _alarm)
+    signal.alarm(CONVERSION_TIMEOUT)
+    try:
+        return impl_convert_inner(ap, W, extra, rec, state)
+    except ConversionTimeout as e:
+        state.pop("conv", None)
+        return {"files": [], "error": "ConversionTimeout: %s" % e}
+    finally:
+        signal.alarm(0)
+        signal.signal(signal.SIGALRM, old)
+
+
+def impl_convert_inner(ap, W, extra, rec, state):
     """Runs the real NP2Converter on `ap` with window W.  Returns per-output-file observations read
     back from the bytes and metadata of the lf files, or {'error': ...}.  With rec['reuse'] the same
     converter object (state['conv']) is used for every window size of the group:
@@ -189,24 +215,28 @@ def impl_convert(ap, W, extra, rec, state):
             md = spikeglx.read_meta_data(f.with_suffix(".meta"))
             fo["meta"] = {"acq": [int(v) for v in md["acqApLfSy"]], "sns": [int(v) for v in md["snsApLfSy"]],
                           "nsaved": int(md["nSavedChans"]), "fsize": int(md["fileSizeBytes"]),
-                          "rate": md["imSampRate"],
+                          "rate": float(md["imSampRate"]),
                           "subset_hi": int(re.findall(r"\d+", str(md["snsSaveChanSubset"]))[-1]),
                           "subset_orig": decode_subset(md.get("snsSaveChanSubset_orig")),
-                          "original_meta": md.get("original_meta"),
-                          "shank_key": md.get("%s_shank" % conv.np_version, -1),
+                          "original_meta": str(md.get("original_meta")),
+                          "shank_key": int(md.get("%s_shank" % conv.np_version, -1)),
                           "fileTimeSecs": float(md["fileTimeSecs"])}
             sr = spikeglx.Reader(f, sort=False)
             try:
-                fo["reader"] = {"nc": int(sr.nc), "fs": sr.fs, "type": sr.type, "nsync": int(sr.nsync),
+                fo["reader"] = {"nc": int(sr.nc), "fs": float(sr.fs), "type": str(sr.type), "nsync": int(sr.nsync),
                                 "ns": int(sr.ns), "shape": [int(v) for v in sr.shape],
                                 "raw_shape": [int(v) for v in sr._raw.shape],
                                 "fudged": float(sr.meta["fileTimeSecs"]) != fo["meta"]["fileTimeSecs"]}
                 fo["raw"] = np.array(sr._raw[:, :])
+                if fo["raw"].ndim != 2 or fo["raw"].dtype != np.int16:
+                    raise TypeError("lf file does not read back as a 2-D int16 array (%s, %s)" % (fo["raw"].shape, fo["raw"].dtype))
             finally:
                 sr.close()
             # bytes of the flat binary (a .lf.cbin holds the same int16 array compressed)
             fo["nbytes"] = f.stat().st_size if f.suffix == ".bin" else int(fo["raw"].size * 2)
             out["files"].append(fo)
+    except ConversionTimeout:
+        raise
     except Exception as e:      # noqa
         out["error"] = "%s: %s" % (type(e).__name__, str(e)[:200])
     finally:
@@ -319,7 +349,7 @@ def measure_locality(ctx, meas):
     that agree on [p-144, p+144] and differ arbitrarily elsewhere (content, where they start and end, taper)
     give values at p that differ by at most eps.  Full-scale data (|x| <= 8191 LSB)."""
     rng = np.random.default_rng(ctx.rng.randrange(2 ** 31))
-    ntr = 1500 if ctx.thorough() else 250
+    ntr = 1500 if ctx.thorough() else 120
     taper = np.r_[0, scipy.signal.windows.cosine((TAPER - 1) * 2), 0]
     worst = {r: 0.0 for r in (TAPER, 72, 36, 24, 12)}
 
@@ -486,7 +516,9 @@ def gen_recordings(ctx):
         rec(kind, ns, contents[i % len(contents)], smap, fs, ws, reuse=(i % 2 == 1) or i == 0,
             strpath=(i % 3 == 1), floatw=(i % 4 == 2))
     # (a') the default window (2 s) with a recording long enough for several windows
-    rec("NP21", (190000 if ctx.thorough() else 61000) + rng.randrange(1, 12), "walk", "fixture", "29999.757983", [60000])
+    #     (quick: saved with a 48-channel subset to keep the file small)
+    rec("NP21", (190000 if ctx.thorough() else 61000) + rng.randrange(1, 12), "walk", "fixture", "29999.757983", [60000],
+        nap=None if ctx.thorough() else 48)
     # (a'') compress=True: the stream ends up in .lf.cbin (read back through spikeglx / mtscomp)
     rec("NP21", rng.randrange(1500, 2500), "tones", "fixture", "30000", [1200], compress=True)
     rec("NP24", rng.randrange(1500, 2500), "walk", "uneven", "29999.757983", [612], compress=True)
@@ -503,7 +535,7 @@ def gen_recordings(ctx):
     if not ctx.thorough():
         keep = [b for b in bl if b[0] in (1, 143, 144, 145, 287, 288, 289, 576, 577, 588, 589)]
         rest = [b for b in bl if b not in keep]
-        bl = keep + rng.sample(rest, 50)
+        bl = keep + rng.sample(rest, 36)
     bynsmall = {}
     for ns, w in bl:
         bynsmall.setdefault(ns, []).append(w)
@@ -517,7 +549,8 @@ def gen_recordings(ctx):
             q = 2 * rng.randrange(30, 60) + par
             rec("NP21" if (r + par) % 2 else "NP24", 12 * q + r, contents[(r + par) % len(contents)], "fixture",
                 "30000" if r % 2 else "29999.757983", [588, 6000],
-                nshank=None if (r + par) % 2 else [rng.randrange(4)], reuse=bool(par))
+                nshank=None if (r + par) % 2 else [rng.randrange(2)], reuse=bool(par),
+                nap=None if ctx.thorough() or r % 3 == 0 else 96)
     # (b'') init_params(nsamples=n) and _process_NP21(offset=o): the stream is derived from AP samples [o, o+n)
     for i in range(8 if ctx.thorough() else 4):
         nsf = rng.randrange(2600, 4000)
@@ -587,18 +620,28 @@ def run_group(ctx, rec, tmp, cases, meas, dist):
                 if in_domain:
                     bad = []
                     for fo in obs["files"]:
-                        if n > 2 * EDGE + RATIO:      # an interior exists: columns can be identified from the data
-                            fo["col_sources"] = observe_col_sources(rec, dat, ref, fo)
-                        b = oracle_file(rec, W, dat, ref, fo, meas)
+                        try:
+                            if n > 2 * EDGE + RATIO:      # an interior exists: columns can be identified from the data
+                                fo["col_sources"] = observe_col_sources(rec, dat, ref, fo)
+                            b = oracle_file(rec, W, dat, ref, fo, meas)
+                        except Exception as e:      # noqa: whatever the converter left behind must not stop the check
+                            fo["col_sources"] = None
+                            b = [("unreadable", "output cannot be interpreted (%s: %s)" % (type(e).__name__, str(e)[:120]))]
                         bad += [(c, "shank %d: %s" % (fo["sh"], msg)) for c, msg in b]
+                    if not obs["files"]:
+                        bad.append(("length", "the conversion reported success but produced no lf file"))
                     for clause, msg in bad[:3]:
                         ctx.fail(msg, desc, {"kind": clause})
                     outs.append((W, obs))
                 else:
                     dist["clipped_out_of_domain"] += 1
             shs = [fo["sh"] for fo in obs.get("files", [])] if "error" not in obs else []
-            cases.append({"desc": desc, "inp": enc_input(rec, W, obs, [int(s) for s in shs]),
-                          "out": enc_output(rec, obs),
+            try:
+                e_in, e_out = enc_input(rec, W, obs, [int(s) for s in shs]), enc_output(rec, obs)
+            except Exception as e:      # noqa
+                ctx.fail("output cannot be encoded (%s: %s)" % (type(e).__name__, str(e)[:120]), desc, {"kind": "unreadable"})
+                continue
+            cases.append({"desc": desc, "inp": e_in, "out": e_out,
                           "nwin": max(cdiv(n - W, W - OVERLAP), 0) + 1 if admissible else 0})
         # window-size independence (to 1 LSB), over the whole file
         for (Wa, oa), (Wb, ob) in zip(outs, outs[1:]):
@@ -640,12 +683,16 @@ def run(ctx):
     cases, meas = [], {}
     dist = dict(NEW_DIST)
     tmp = common.tmpdir("C12_run_")
+    import time
+    t0 = time.time()
+    ctx.coverage["wall_proofs_s"] = round(ctx.elapsed(), 1)
     try:
         for rec in recs:
             run_group(ctx, rec, tmp, cases, meas, dist)
     finally:
         shutil.rmtree(tmp, ignore_errors=True)
         logging.disable(logging.NOTSET)
+    ctx.coverage["wall_conversions_s"] = round(time.time() - t0, 1)
     common.correspondence(ctx, PROP, HEADER, [c["inp"] for c in cases], [c["out"] for c in cases],
                           lambda i: cases[i]["desc"], n_kernel=16)
     measure_locality(ctx, meas)
